@@ -10,6 +10,9 @@ set_option linter.unusedSimpArgs false
 namespace Hyp.Score
 open Hyp Hyp.SetOps Hyp.SetSpec
 
+-- for any BM25 parameters (`Score.Bm25`: `K1`, `B` of the scoring loop, `K1` of `query_weight`)
+variable [Bm25 ℝ]
+
 theorem nodup_eraseDups : ∀ (n : Nat) (l : List Nat), l.length ≤ n → l.eraseDups.Nodup := by
   intro n
   induction n with
